@@ -89,6 +89,13 @@ pub fn gen_bigram_sized(rng: &mut Rng, big_costs: bool, star_listed: bool, nr: u
         let side = if rng.chance(1, 2) { &mut right } else { &mut left };
         for r in side.iter_mut() { r.truncate(cap); }
     }
+    // with more than 8 templates, 1 row in 6 has no feature in its whole first 8-lane block ('*' = no feature there)
+    // and features only in later blocks
+    if k > 8 {
+        for r in right.iter_mut().chain(left.iter_mut()).skip(1) {
+            if rng.chance(1, 6) { for f in r.iter_mut().take(8) { *f = "*".to_string(); } }
+        }
+    }
     // occasional duplicate rows (ids sharing all features)
     if nr > 1 && rng.chance(1, 4) { right[nr - 1] = right[0].clone(); }
     if nl > 1 && rng.chance(1, 4) { left[nl - 1] = left[0].clone(); }
